@@ -333,5 +333,25 @@ PROPS["C18"] = dict(
     assumptions=["projects whose first generation fails are C17's business and are discarded here (counted)"],
 )
 
+PROPS["C19"] = dict(
+    pkg="c19", race=False, level="exploration", prepare="gen_tool",
+    env={"VF_SHRINKTIME": "90s"},
+    quick=dict(shards=16, timeout=1500), thorough=dict(shards=16, timeout=7200),
+    claim="model-based history testing of resolver regeneration: rapid draws histories of {edit resolvers, evolve schema, regenerate 1-3 "
+          "times} over a two-file schema, for both resolver layouts; edits replace method bodies with Go drawn from a statement pool "
+          "(braces inside strings, raw strings, line and block comments, closures, labelled loops, rune literals), set plain // doc "
+          "comments, name the results, add helper functions/types/vars/consts/methods and imports (plain, aliased local package, a local "
+          "package named like a template-reserved one); evolutions add, remove, rename fields, move a field to the other schema file, add "
+          "and remove types; after every regeneration the files are read back with go/parser and go/scanner: surviving resolvers keep "
+          "body token stream, doc text, result names and every import their body uses; bodies of removed/renamed resolvers and all "
+          "helper declarations are still present in that run's output; every file parses; and when only fields were added to files "
+          "holding only resolver methods, a package that compiled before compiles after",
+    note="bodies are never empty (gqlgen documents an empty body as 'not implemented'); doc comments are plain // comments",
+    technique="model-based state-machine property testing (rapid) with a token-stream round-trip oracle",
+    rule="evaluation = one regeneration; a history is non-trivial if a regeneration follows both an edit and an evolution and some body has "
+         "braces inside a string/raw string or a helper declaration exists; distinct by the history",
+    assumptions=["go/parser and go/scanner decide what the files contain", "the harness's edits produce valid Go (checked)"],
+)
+
 # properties deliberately not claimed (reason); anything else missing from PROPS is "not built yet"
 NOT_CLAIMED = {}
